@@ -23,7 +23,14 @@ FRESH_CALLS = {"dict", "defaultdict", "list", "set", "tuple", "OrderedDict"}
 # Measure.__init__ and the reconstruct methods are themselves translated)
 PASSIVE_CALLEES = {"Integral", "Measure", "Form", "reconstruct", "canonicalize_metadata", "hash", "isinstance",
                    "str", "repr", "len", "sorted", "IntegralData", "ValueError", "all", "any", "zip", "enumerate",
-                   "tuple"}
+                   "tuple", "hasattr", "getattr", "type", "id", "bool", "float", "int", "warn", "format", "sum",
+                   "min", "max", "list", "set", "frozenset", "map", "filter", "iter", "next", "range", "print",
+                   "chain", "ZeroBaseForm"}
+# list mode (FormSum / Form constructors): component / weight / integral lists of OTHER objects are inputs
+LIST_MUTATORS = {"append", "extend", "insert", "remove", "sort", "reverse"}
+LIST_SOURCE_METHODS = {"components", "weights", "integrals", "metadata", "ufl_sub_spaces"}
+LIST_SOURCE_ATTRS = {"_components", "_weights", "_integrals", "ufl_operands", "_metadata"}
+_LIST_MODE = [False]
 
 
 class Untranslatable(Exception):
@@ -37,7 +44,16 @@ def src(fn):
 
 
 def is_source(n):
-    """<expr>.metadata() or <expr>._metadata"""
+    """<expr>.metadata() or <expr>._metadata; in list mode also the component/weight/integral lists of
+    objects other than self"""
+    if _LIST_MODE[0]:
+        if isinstance(n, ast.Call) and isinstance(n.func, ast.Attribute) and n.func.attr in LIST_SOURCE_METHODS \
+                and not n.args and not (isinstance(n.func.value, ast.Name) and n.func.value.id == "self"):
+            return True
+        if isinstance(n, ast.Attribute) and n.attr in LIST_SOURCE_ATTRS and isinstance(n.ctx, ast.Load) \
+                and not (isinstance(n.value, ast.Name) and n.value.id == "self"):
+            return True
+        return False
     if isinstance(n, ast.Call) and isinstance(n.func, ast.Attribute) and n.func.attr == "metadata" and not n.args:
         return True
     if isinstance(n, ast.Attribute) and n.attr == "_metadata" and isinstance(n.ctx, ast.Load):
@@ -50,9 +66,10 @@ def contains(n, pred):
 
 
 class FnTr:
-    def __init__(self, fn, name):
+    def __init__(self, fn, name, list_mode=False):
         self.node = src(fn)
         self.name = name
+        self.list_mode = list_mode
         self.vars = {}          # local name -> IR variable number
         self.sources = []       # distinct source expressions (unparsed)
         self.tainted = set()    # local containers holding input aliases
@@ -88,6 +105,18 @@ class FnTr:
         """-> IR rhs text or None if the value is not a metadata dict / alias"""
         if isinstance(n, ast.Dict) and not n.keys:
             return "RNew"
+        if self.list_mode:
+            if isinstance(n, ast.List) and not any(self.tracked(e) or is_source(e) for e in n.elts):
+                return "RNew"
+            if isinstance(n, ast.ListComp):
+                return "RNew"           # a new list (its elements are not containers we track)
+            if isinstance(n, ast.Call) and isinstance(n.func, ast.Name) and n.func.id == "list":
+                if not n.args:
+                    return "RNew"
+                if len(n.args) == 1 and self.tracked(n.args[0]):
+                    return f"RCopyVar {self.v(n.args[0].id)}"
+                if len(n.args) == 1 and is_source(n.args[0]):
+                    return f"RCopyInput {self.srcnum(n.args[0])}"
         if isinstance(n, ast.Dict) and any(k is None for k in n.keys):      # {**y}
             ys = [v for k, v in zip(n.keys, n.values) if k is None]
             if len(ys) == 1 and self.tracked(ys[0]):
@@ -177,14 +206,14 @@ class FnTr:
                                                                        and a.id not in self.tainted))
                            or is_source(a)]
                 if isinstance(f, ast.Attribute) and (self.tracked(f.value) or is_source(f.value)):
-                    if fname in MUTATORS:
+                    if fname in MUTATORS or (self.list_mode and fname in LIST_MUTATORS):
                         continue      # handled as a statement-level write
                     # any other method name is not a dict method (dict's methods are a fixed set): the
                     # object is not a dict (e.g. an Integral taken out of a container) - a read-only use
                     if self.tracked(f.value):
                         self.emit(f"Use {self.v(f.value.id)}", node)
                 if touched and fname not in PASSIVE_CALLEES and fname not in FRESH_CALLS \
-                        and not (isinstance(f, ast.Attribute) and fname in MUTATORS | READERS):
+                        and not (isinstance(f, ast.Attribute) and fname in MUTATORS | READERS | LIST_MUTATORS):
                     raise Untranslatable(f"{self.name}: metadata dict passed to unknown callee {fname}: "
                                          f"{ast.unparse(c)[:80]}")
                 for a in touched:
@@ -256,6 +285,15 @@ class FnTr:
                     # re-bound to something that is not a metadata dict: treat as unknown input
                     self.emit(f"Assign {self.v(tgt.id)} (RInput {self.srcnum(val)})", st)
                 return
+            if isinstance(tgt, ast.Tuple) and isinstance(val, ast.Tuple) and len(tgt.elts) == len(val.elts) \
+                    and all(isinstance(x, ast.Name) for x in tgt.elts):
+                rs = [self.rhs(x) for x in val.elts]        # evaluate all right-hand sides first
+                for x, r, ve in zip(tgt.elts, rs, val.elts):
+                    if r is not None:
+                        self.emit(f"Assign {self.v(x.id)} ({r})" if " " in r else f"Assign {self.v(x.id)} {r}", st)
+                    elif x.id in self.vars or self.mentions_tracked(ve):
+                        self.emit(f"Assign {self.v(x.id)} (RInput {self.srcnum(ve)})", st)
+                return
             if isinstance(tgt, ast.Tuple):
                 if self.mentions_tracked(val) or self.mentions_tainted(val):
                     for x in tgt.elts:
@@ -300,12 +338,12 @@ class FnTr:
         if isinstance(st, ast.Expr) and isinstance(st.value, ast.Call):
             c = st.value
             f = c.func
-            if isinstance(f, ast.Attribute) and f.attr in MUTATORS:
+            if isinstance(f, ast.Attribute) and (f.attr in MUTATORS or (self.list_mode and f.attr in LIST_MUTATORS)):
                 w = self.write_target(f.value, st, f.attr)
                 if w is not None:
-                    if f.attr == "update" and len(c.args) == 1 and self.tracked(c.args[0]):
+                    if f.attr in ("update", "extend") and len(c.args) == 1 and self.tracked(c.args[0]):
                         self.emit(f"UpdateVar {w} {self.v(c.args[0].id)}", st)
-                    elif f.attr == "update" and len(c.args) == 1 and is_source(c.args[0]):
+                    elif f.attr in ("update", "extend") and len(c.args) == 1 and is_source(c.args[0]):
                         self.emit(f"UpdateInput {w} {self.srcnum(c.args[0])}", st)
                     else:
                         self.emit(f"SetItem {w} 0 0", st)
@@ -337,6 +375,13 @@ class FnTr:
         raise Untranslatable(f"{self.name}: statement {type(st).__name__} not in whitelist")
 
     def translate(self):
+        _LIST_MODE[0] = self.list_mode
+        try:
+            return self._translate()
+        finally:
+            _LIST_MODE[0] = False
+
+    def _translate(self):
         args = self.node.args
         for a in args.args + args.kwonlyargs:
             if a.arg == "metadata":
@@ -348,9 +393,11 @@ class FnTr:
         return self
 
     def to_coq(self, ident):
-        body = ";\n   ".join(f"{t} (* {c.replace('(*', '( *').replace('*)', '* )')} *)" for t, c in self.ir)
+        def clean(c):
+            return c.replace("(*", "( *").replace("*)", "* )").replace('"', "'")
+        body = ";\n   ".join(f"{t} (* {clean(c)} *)" for t, c in self.ir)
         return (f"(* {self.name}; variables: " + ", ".join(f"{i}={n}" for n, i in self.vars.items()) +
-                "; input dicts: " + ", ".join(f"{i}={s}" for i, s in enumerate(self.sources)).replace("*)", "* )") + " *)\n"
+                "; input dicts: " + clean(", ".join(f"{i}={s}" for i, s in enumerate(self.sources))) + " *)\n"
                 f"Definition {ident}_ir : list stmt :=\n  [{body}].\n")
 
     def safe(self):
@@ -377,6 +424,7 @@ def targets():
     ais = importlib.import_module("ufl.algorithms.apply_integral_scaling")
     cfd = importlib.import_module("ufl.algorithms.compute_form_data")
     da = importlib.import_module("ufl.algorithms.domain_analysis")
+    from ufl.form import Form, FormSum
     from ufl.integral import Integral
     from ufl.measure import Measure
     return [
@@ -392,4 +440,9 @@ def targets():
         ("accumulate_integrands_with_same_metadata", da.accumulate_integrands_with_same_metadata),
         ("build_integral_data", da.build_integral_data),
         ("rearrange_integrals_by_single_subdomains", da.rearrange_integrals_by_single_subdomains),
+        ("canonicalize_metadata", importlib.import_module("ufl.utils.sorting").canonicalize_metadata),
+        ("FormSum_init", FormSum.__init__, True),
+        ("FormSum_sum_variational_components", FormSum._sum_variational_components, True),
+        ("Form_init", Form.__init__, True),
+        ("Form_add", Form.__add__, True),
     ]
